@@ -50,7 +50,7 @@ def value(draw, T):
 @st.composite
 def case(draw, lang=None, member_opt=None):
     lang = lang or draw(st.sampled_from(["c++", "c"]))
-    fields = [(draw(st.sampled_from(sorted(TYPES))), "f%d" % i) for i in range(draw(st.integers(2, 5)))]
+    fields = [(draw(st.sampled_from(sorted(TYPES))), "f%d" % i) for i in range(draw(st.integers(2, 6)))]
     form = "list" if member_opt else draw(st.sampled_from(["line", "list", "list"]))
     member_options = {}
     if member_opt:
@@ -317,6 +317,78 @@ def build_and_run(work, cs, gen_files, front):
                 stream=[l for l in so.split("\n") if l.strip()])
 
 
+def py_lit(T, v):
+    return repr(float(v)) if is_float(T) else "%d" % v
+
+
+def py_driver(cs):
+    """Python driver against the documented struct-as-class API (PY_struct_arg: class; regression/run/
+    struct-class-c/python/test.py): Rec(f0, f1, ...) constructs, members are attributes, an intent(out)
+    argument becomes the result, an intent(inout) argument is returned."""
+    fields = cs["fields"]
+    out = ["import ctypes, sys", "import stlib", "_lib = ctypes.CDLL(stlib.__file__)", "_lib.vf_next_rv.argtypes = [ctypes.c_double]",
+           "_lib.vf_next_rv.restype = None",
+           "def show(r):"]
+    for T, n in fields:
+        out.append("    print('OUT %s ' + (%s), flush=True)" % (n, ("'%%.17g' %% r.%s" % n) if is_float(T) else ("'%%d' %% r.%s" % n)))
+    for k, c in enumerate(cs["calls"]):
+        out.append("print('C %d', flush=True)" % k)
+        op = c["op"]
+        ctor = "stlib.Rec(%s)" % ", ".join(py_lit(T, v) for (T, _n), v in zip(fields, c["vals"]))
+        if op in ("sumByValue", "sumPtr"):
+            out += ["_lib.vf_next_rv(%r)" % c["rv"], "rv = stlib.%s(%s)" % (op, ctor), "print('RV %.17g' % rv, flush=True)"]
+        elif op == "fillOut":
+            out.append("show(stlib.fillOut(%d))" % c["seed"])
+        elif op == "bumpInOut":
+            out += ["r = %s" % ctor, "r2 = stlib.bumpInOut(r)", "show(r2)"]
+        elif op == "makeByValue":
+            out.append("show(stlib.makeByValue(%d))" % c["seed"])
+        else:
+            out.append("show(stlib.getPtr(%d))" % c["seed"])
+    return "\n".join(out) + "\n"
+
+
+def build_and_run_py(work, cs, gen_files):
+    import subprocess
+    import sysconfig
+    from . import pyfront
+    hdr, impl = subject(cs)
+    cxx = cs["lang"] == "c++"
+    open(os.path.join(work, "stlib.h"), "w").write(hdr)
+    open(os.path.join(work, "stlib." + ("cpp" if cxx else "c")), "w").write(impl)
+    inc = sysconfig.get_paths()["include"]
+    objs = []
+
+    def cc(cmd, src):
+        obj = os.path.splitext(os.path.basename(src))[0] + ".o"
+        rc, so, se = drivers.run_cmd(cmd + drivers.SAN + ["-g", "-fPIC", "-I", ".", "-I", inc, "-c", src, "-o", obj], work)
+        if rc != 0:
+            return "%s does not compile: %s" % (src, (se or so)[-1200:])
+        objs.append(obj)
+        return None
+    err = cc(["g++", "-std=c++11"] if cxx else ["gcc", "-std=c99"], "stlib." + ("cpp" if cxx else "c"))
+    if err:
+        return dict(stage="harness", detail=err, stream=[])
+    for fn in sorted(gen_files):
+        if fn.startswith("py") and fn.endswith((".cpp", ".c")):
+            err = cc(["g++", "-std=c++11", "-w"] if fn.endswith(".cpp") else ["gcc", "-std=c99", "-w"], fn)
+            if err:
+                return dict(stage="wrapper-build", detail=err, stream=[])
+    rc, so, se = drivers.run_cmd(["g++", "-shared"] + drivers.SAN + objs + ["-o", "stlib.so", "-L" + sysconfig.get_config_var("LIBDIR"), "-lpython3.12"], work)
+    if rc != 0:
+        return dict(stage="link", detail=(se or so)[-1200:], stream=[])
+    open(os.path.join(work, "drv.py"), "w").write(py_driver(cs))
+    rc, asanlib, _e = drivers.run_cmd(["gcc", "-print-file-name=libasan.so"], work)
+    env = dict(os.environ, PYTHONPATH=work, LD_LIBRARY_PATH=sysconfig.get_config_var("LIBDIR"), PYTHONHASHSEED="0",
+               LD_PRELOAD=asanlib.strip(), ASAN_OPTIONS="detect_leaks=0:halt_on_error=1:exitcode=97")
+    try:
+        cp = subprocess.run([pyfront.PY, "drv.py"], cwd=work, capture_output=True, text=True, timeout=120, env=env, errors="replace")
+    except subprocess.TimeoutExpired:
+        return dict(stage="run", detail="python driver timed out", rc=1, stream=[])
+    return dict(stage="run", detail="" if cp.returncode == 0 else "python exits with status %s: %s" % (cp.returncode, cp.stderr[-1200:]),
+                rc=cp.returncode, stream=[l for l in cp.stdout.split("\n") if l.strip()])
+
+
 def _job(job):
     idx, cs, front, options = job
     out = dict(idx=idx, ncalls=len(cs["calls"]), problems=[], labels=["struct-op:" + c["op"] for c in cs["calls"]] +
@@ -331,7 +403,8 @@ def _job(job):
             out["problems"].append(("struct:shroud", case, "Shroud stops on a struct library: " + r.describe()))
             return out
         outd = os.path.join(work, "out")
-        res = build_and_run(outd, cs, sorted(os.listdir(outd)), front)
+        res = build_and_run_py(outd, cs, sorted(os.listdir(outd))) if front == "python" else \
+            build_and_run(outd, cs, sorted(os.listdir(outd)), front)
         if res["stage"] == "harness":
             raise core.HarnessError(res["detail"])
         if res["stage"] != "run":
@@ -357,7 +430,7 @@ def run_structs(ctx, front, n, configs=(None,)):
     jobs = []
     for lang in langs:
         # (the member-level options in turn: a few draws alone leave one of them out)
-        for mo in (None, "wrap_c", "wrap_fortran", "wrap_python"):
+        for mo in ((None, "wrap_c", "wrap_fortran", "wrap_python") if front != "python" else (None, "wrap_c", "wrap_fortran")):
             for cs in smallgen.sample(case(lang, mo), ctx.seed + 900 + len(jobs), n if mo is None else max(2, n // 3)):
                 for options in configs:
                     jobs.append((len(jobs), cs, front, options))
